@@ -55,6 +55,10 @@ func TestCheck(t *testing.T) {
 			hist.Job{Name: kind + "/loop-batch-257", Cfg: hist.Config{PageSize: 512, Start: 3, R2Starts: "absent", BackupKind: kind, BackupLoop: true, Alphabet: []string{"tx:t1", "retain", "svc:back"}, Prelude: []string{"tx:a:t1", "arm:pm", "burst:a"}}, Depth: 2, Budget: 60 * time.Second},
 		)
 	}
+	// the loop's periodic full sync, every five seconds: an idle primary notices the first, second and third change of the service
+	for _, kind := range []string{"file", "lfsc"} {
+		jobs = append(jobs, hist.Job{Name: kind + "/loop-periodic-full-sync", Cfg: hist.Config{PageSize: 512, Start: 3, R2Starts: "absent", BackupKind: kind, BackupLoop: true, BackupFullSync: 5, Alphabet: []string{"idle", "svc:ahead", "svc:back", "svc:fork", "tx:t1"}}, Depth: 3, Budget: 60 * time.Second})
+	}
 	// an empty directory in the file service (a first upload that failed at once) for a database the primary does not have
 	jobs = append(jobs, hist.Job{Name: "file/stray-directory", Cfg: hist.Config{PageSize: 512, Start: 3, R2Starts: "absent", BackupKind: "file", Alphabet: []string{"tx:t1", "sync", "svc:stray", "restartP", "svc:back"}}, Depth: 3, Budget: 60 * time.Second})
 	if run.Thorough() {
